@@ -83,6 +83,16 @@ Theorem C10_fd_stays_invalid : forall w o, Inv w -> wf_op o -> s_fd_valid (sp w)
 Proof. exact fd_stays_invalid. Qed.
 Print Assumptions C10_fd_stays_invalid.
 
+(** dropping the object (the last reference goes away; PtyProcess.__del__ runs its close(), errors swallowed), in any reachable
+    state: the child is dead and reaped even if it ignores or is stopped against the polite signals, the descriptor has been
+    released - once in total -, and on an object already closed nothing happens at all *)
+Theorem C10_drop_releases : forall w, Inv w ->
+  let w' := snd (drop w) in
+  Inv w' /\ dead w' /\ t_closed (pt w') = true /\ t_fd_open (pt w') = false /\ fd_closes w' = 1%nat /\ sp w' = sp w /\
+  (t_closed (pt w) = true -> w' = w).
+Proof. exact drop_spec. Qed.
+Print Assumptions C10_drop_releases.
+
 (** fdspawn / SocketSpawn (descriptor-based transports): over every sequence of close / isalive / send calls, with the
     descriptor possibly closed by somebody else in between, the object releases its descriptor at most once; a successful
     close is final: closing again does nothing, the object reports not alive and sending fails *)
